@@ -146,6 +146,30 @@ def _gen_large(rng, tier):
         if rng.random() < 0.3 and agents:
             ops.append(["contents", [[a[1], a[2]] for a in rng.sample(agents, min(len(agents), 4))], rng.choice(["list", "tuple"])])
         cases.append({"cls": cls, "w": w, "h": h, "torus": torus, "agents": agents, "ops": ops})
+    # very long strips: coordinates beyond 2**16, and pairs of cells that coincide under a packed key
+    # ((x << 16) | y, x * 256 + y, ...) queried one after the other on one instance
+    for _ in range(4 if tier == "quick" else 40):
+        long_ = rng.choice([65536 + 9, 70000])
+        short = rng.randint(2, 3)
+        tall = rng.random() < 0.5
+        w, h = (short, long_) if tall else (long_, short)
+        torus = rng.random() < 0.5
+        qs = []
+        for _k in range(rng.randint(2, 4)):
+            m, ic, r = rng.random() < 0.5, rng.random() < 0.5, rng.randint(1, 2)
+            for mod in rng.sample([256, 65536], 2):
+                a = rng.randrange(short - 1)
+                b = mod + rng.randint(0, long_ - mod - 1)
+                pair = [(a, b), (a + 1, b - mod)]
+                rng.shuffle(pair)
+                for (s_, l_) in pair:
+                    qs.append(((s_, l_) if tall else (l_, s_)) + (m, ic, r))
+        agents = []
+        for (x, y, m, ic, r) in qs:
+            if rng.random() < 0.6 and [x, y] not in [a[1:] for a in agents]:
+                agents.append([len(agents) + 1, x, y])
+        ops = [[rng.choice(["nbhd", "nbrs"]), x, y, m, ic, r, rng.choice(["get", "iter", "np"])] for (x, y, m, ic, r) in qs]
+        cases.append({"cls": rng.choice(["SingleGrid", "MultiGrid"]), "w": w, "h": h, "torus": torus, "agents": agents, "ops": ops})
     # crowded cells / many agents
     for _ in range(6 if tier == "quick" else 80):
         w, h = rng.randint(2, 5), rng.randint(2, 5)
@@ -326,7 +350,7 @@ def enumerate_cases(tier, broken=False):
 
 # ------------------------------------------------------------------ implementation side
 def _enc(p):
-    return p[0] * 65536 + p[1]
+    return p[0] * 4294967296 + p[1]
 
 
 def _obs_cells(cells):
